@@ -59,6 +59,74 @@ def _observe(c):
                 meas=cirq.is_measurement(c), frozen=c.freeze().moments, names=cirq.parameter_names(c), n=len(c))
 
 
+def moment_incoherent(m):
+    """None if every cached summary of the moment equals what a moment rebuilt from its operations reports"""
+    import cirq
+
+    fresh = cirq.Moment(m.operations)
+    if set(cirq.measurement_key_objs(m)) != set(cirq.measurement_key_objs(fresh)):
+        return f"moment's cached measurement keys {sorted(map(str, cirq.measurement_key_objs(m)))} differ from those of its operations {sorted(map(str, cirq.measurement_key_objs(fresh)))}"
+    if set(cirq.control_keys(m)) != set(cirq.control_keys(fresh)):
+        return f"moment's cached control keys {sorted(map(str, cirq.control_keys(m)))} differ from those of its operations {sorted(map(str, cirq.control_keys(fresh)))}"
+    if m.qubits != fresh.qubits or any(m.operation_at(q) != fresh.operation_at(q) for q in fresh.qubits):
+        return "moment's qubit index differs from its operations"
+    if cirq.is_measurement(m) != cirq.is_measurement(fresh) or not (m == fresh) or hash(m) != hash(fresh):
+        return "moment differs from (or hashes differently than) a moment rebuilt from its operations"
+    return None
+
+
+def standin_moment_caches(tier, seed):
+    """exhaustive-small: every Moment-producing method x every way of passing the operations (bare, list, nested, generator)"""
+    import itertools
+
+    import cirq
+
+    a, b, c = cirq.LineQubit.range(3)
+    base_ops = [cirq.X(a), cirq.measure(a, key="k"), cirq.X(a).with_classical_controls("m")]
+    new_ops = [cirq.Z(b), cirq.measure(b, key="k2"), cirq.X(b).with_classical_controls("k"), cirq.measure(b, c, key="k3"), cirq.CZ(b, c).with_classical_controls("k", "m")]
+    shapes = {"bare": lambda o: (o,), "list": lambda o: ([o],), "nested": lambda o: ([[o]],), "generator": lambda o: ((x for x in [o]),), "mixed": lambda o: ([], [o], ()),
+              "tuple-in-list": lambda o: ([(o,)],)}
+    cases, fails = 0, []
+
+    def check(m, **args):
+        nonlocal cases
+        cases += 1
+        why = moment_incoherent(m)
+        if why:
+            fails.append(dict(args={k: repr(v)[:300] for k, v in args.items()}, failed="moment-cache", clause=why))
+
+    for bo, no, (sh, f) in itertools.product(base_ops, new_ops, shapes.items()):
+        m0 = cirq.Moment(bo)
+        check(m0.with_operations(*f(no)), method="with_operations", base=bo, new=no, shape=sh)
+        check(m0.with_operation(no), method="with_operation", base=bo, new=no)
+        check(m0 + f(no)[0] if sh != "mixed" else m0 + [no], method="__add__", base=bo, new=no, shape=sh)
+        m1 = cirq.Moment(bo, no)
+        check(m1, method="Moment(...)", ops=(bo, no))
+        check(m1.without_operations_touching([b]), method="without_operations_touching", ops=(bo, no))
+        check(m1 - no, method="__sub__", ops=(bo, no))
+        check(m1[[b]] if hasattr(m1, "__getitem__") else m1, method="__getitem__", ops=(bo, no))
+        check(cirq.with_measurement_key_mapping(m1, {"k": "z", "k2": "z2", "m": "mm"}), method="with_measurement_key_mapping", ops=(bo, no))
+        check(cirq.with_key_path_prefix(m1, ("p",)), method="with_key_path_prefix", ops=(bo, no))
+        check(m1.transform_qubits({a: b, b: a}), method="transform_qubits", ops=(bo, no))
+        check(m1.with_tags("t") if hasattr(m1, "with_tags") else m1, method="with_tags", ops=(bo, no))
+        cc = cirq.Circuit(cirq.Moment(bo))
+        cc.batch_insert_into([(0, list(f(no)))])
+        check(cc[0], method="Circuit.batch_insert_into", base=bo, new=no, shape=sh)
+        c2 = cirq.Circuit(cirq.Moment(bo), *f(no))
+        for mm in c2:
+            check(mm, method="Circuit(Moment, ops...)", base=bo, new=no, shape=sh)
+    seen, uniq = set(), []
+    for x in fails:
+        k = (x["args"].get("method"), x["args"].get("shape"))
+        if k not in seen:
+            seen.add(k)
+            uniq.append(x)
+    return dict(function="cirq-core/cirq/circuits/moment.py:Moment[cached key and qubit summaries]", case="moment-caches",
+                bound="3 base operations x 5 new operations (gate / measurement / classically controlled) x 6 ways of passing them x 13 Moment-producing methods", cases=cases, distinct=cases,
+                failures=len(fails), exhaustive=True, _fails=uniq[:4])
+standin_moment_caches.prop = "C05"
+
+
 def _check_state(c, hist):
     """Every query answers as a freshly rebuilt equal circuit would (incl. how later appends are placed)."""
     import cirq
@@ -74,6 +142,9 @@ def _check_state(c, hist):
         qs = [q for op in m.operations for q in op.qubits]
         if len(qs) != len(set(qs)):
             return "moment with overlapping qubits"
+        why = moment_incoherent(m)
+        if why:
+            return why
     # a later append must land where it would on the rebuilt circuit: after every conflicting op
     for probe in _alphabet():
         c2 = c.copy() if False else None
@@ -302,7 +373,7 @@ def standin_history(tier, seed):
                       "conflicting existing ops, and placement of 10 probe appends vs the rebuilt circuit",
                 cases=cases, distinct=distinct, failures=len(fails), exhaustive=False, _fails=fails)
 standin_history.prop = "C05"
-STANDINS = [standin_history]
+STANDINS = [standin_history, standin_moment_caches]
 
 
 def _replay_frame(ob, seed):
